@@ -123,6 +123,27 @@ Theorem write_error_exit_partial :
 Proof. exact write_error_exit_partial. Qed.
 Print Assumptions write_error_exit_partial.
 
+(* parity_write accepts a pwrite iff the WHOLE block was transferred (a short count is an error, reported like ENOSPC and hence
+   covered by write_error_safe: its stripe ends marked bad) *)
+Theorem parity_write_ok_iff_full_count :
+  forall bs r, classify_pwrite bs r = WOk <-> r = PwCount bs.
+Proof. exact classify_pwrite_ok. Qed.
+Print Assumptions parity_write_ok_iff_full_count.
+Theorem short_count_is_reported :
+  forall bs n m lag it pos nl l, n <> bs -> l < nl ->
+    In pos (map wr_pos (level_reports m lag it pos (fun k => if Nat.eqb k l then classify_pwrite bs (PwCount n) else WOk) nl)).
+Proof. exact classify_short_reported. Qed.
+Print Assumptions short_count_is_reported.
+
+(* sync -h: any block of the pre-hash phase that is not read and matching makes the command fail; an EIO also skips the sync phase *)
+Theorem prehash_error_fails :
+  forall outs, (exists x, In x outs /\ x <> HOk) -> hash_failing (hash_phase outs) = true.
+Proof. exact prehash_error_fails. Qed.
+Print Assumptions prehash_error_fails.
+Theorem prehash_eio_skips : forall outs, In HEio outs -> h_skip (hash_phase outs) = true.
+Proof. exact prehash_eio_skips. Qed.
+Print Assumptions prehash_eio_skips.
+
 (* regression examples: the three former refutation witnesses and a fatal (ENOSPC) write error *)
 Example C08_write_error_threaded_notlast_now_bad :
   let r := wrun (Threaded 3) 3 in
@@ -149,6 +170,18 @@ Example C08_write_error_fatal_now_bad :
   recorded_healthy (ro_content (w_run r)) 2 = false /\ recorded_healthy (ro_content (w_run r)) 3 = true /\
   recorded_healthy (ro_content (w_run r)) 4 = false.
 Proof. exact write_error_fatal_now_bad. Qed.
+
+Example C08_write_short_count_now_bad :
+  let r := sync_loop_w hz 1024 1 wo 7 wfs (fun _ => []) (fun pos l => if Nat.eqb pos 5 then classify_pwrite 1024 (PwCount 512) else WOk) Mono (fun _ _ => 1)
+                       (seq 0 8) None 0 [] [] wc wpar 0 0 0 in
+  ro_bailed (w_run r) = true /\ run_failing (w_run r) = true /\ w_fpos r = [5] /\
+  recorded_healthy (ro_content (w_run r)) 5 = false /\ nth 5 (nth 0 (ro_parity (w_run r)) []) PNone = PJunk 0 /\
+  recorded_healthy (ro_content (w_run r)) 6 = false.
+Proof. exact write_short_count_now_bad. Qed.
+Example C08_prehash_nonvacuous :
+  hash_failing (hash_phase [HOk; HOk; HEio; HOk]) = true /\ h_skip (hash_phase [HOk; HOk; HEio; HOk]) = true /\
+  h_nio (hash_phase [HOk; HOk; HEio; HOk]) = 1 /\ hash_failing (hash_phase [HOk; HOk]) = false.
+Proof. exact prehash_nonvacuous. Qed.
 
 (* non-vacuity *)
 Example C08_read_error_safe_nonvacuous :
